@@ -12,6 +12,8 @@ from harness.refmodel import freeze, same, join_kind, NUM, TMP, ref_dtype
 S = load()
 
 PROPERTY = "C08"
+LEVEL_TEXT = 'Fault enumeration: key form x value form x kind class with the failing element / raising iterator position enumerated; atomicity through contents, type tags, schema, name and fingerprint; table cell/row/column/region assignment and rename_columns.'
+LEVEL_NOTE = 'Reference model = Python list assignment with scalar broadcast and the same-length rule; a bool column may reject a wider number.'
 DESIGN_REF = "DESIGN.md §5 C08"
 ENGINE = "elementwise"
 LEVEL = "fault_enumeration"
